@@ -6,20 +6,23 @@ import json, os, re, shutil, sys, glob
 
 OUT = "/verif/seeded"
 rows = []
-for vj in sorted(glob.glob("/tmp/val/C*-m*.json")):
+for vj in sorted(glob.glob("/tmp/val/C*-m*.json")) + sorted(glob.glob("/tmp/val/R2C*-m*.json")):
     tag = os.path.basename(vj)[:-5]
     d = json.load(open(vj))
     cand = d["candidate"]
-    prop, m = tag.split("-")
+    round2 = tag.startswith("R2")
+    prop, m = (tag[2:] if round2 else tag).split("-")
     ok = (d.get("demo_pristine_rc") == 0 and d.get("applies") and d.get("build_rc") == 0
           and d.get("tests", {}).get("failed") == 0 and d.get("tests", {}).get("rc") == 0 and (d.get("demo_mutated_rc") or 0) != 0)
     if not ok:
         print("NOT CONFIRMED", tag, {k: d.get(k) for k in ("demo_pristine_rc", "applies", "build_rc", "tests", "demo_mutated_rc")})
         continue
     idx = {"m1": 1, "m2": 2, "m1b": 1}.get(m, 9)
+    if round2:
+        idx += 2
     sid = "%s-%d" % (prop, idx) if not (prop == "C09" and idx == 1) else "C09-2"
-    if prop == "C09" and idx == 2:
-        sid = "C09-3"
+    if prop == "C09" and idx >= 2:
+        sid = "C09-%d" % (idx + 1)
     dst = os.path.join(OUT, sid)
     if os.path.exists(dst):
         shutil.rmtree(dst)
@@ -48,7 +51,7 @@ for vj in sorted(glob.glob("/tmp/val/C*-m*.json")):
             }
     meta = {
         "property": prop,
-        "source": "independent sub-agent given only the property text and a scratch worktree of /repo (nothing from /verif)",
+        "source": "independent sub-agent given only the property text and a scratch worktree of /repo (nothing from /verif)" + ("; round 2: asked for less direct mechanisms than a swapped intrinsic, a dropped assert or a re-bound table row" if round2 else ""),
         "needs_to_manifest": needs,
         "what_i_ran": [
             "tools/validate_seed.sh: fresh scratch worktree of /repo; demo/run.sh on the pristine tree: exit %s" % d.get("demo_pristine_rc"),
